@@ -673,5 +673,87 @@ def stepW [Geo V N] (dim3 : Bool) (s : Mesh V N) : Op V N → Option (Mesh V N)
   | .append rhs => appendW dim3 s rhs
   | .transform fV fN => transformVertices fV fN s
 
+
+/-! ## `scaled`
+
+`TriMesh::scaled(self, scale)`:
+* every vertex is multiplied component-wise by `scale` (`fV`);
+* the QBVH is **not** rebuilt: `Qbvh::scaled(scale)` applies `Aabb::scaled(scale)` to the root box and to the four
+  boxes of every node.  In the representation of the model (`Mesh.qbvh` = the triangles whose boxes the leaves hold)
+  this is: every recorded triangle is mapped by `fV`.  That `Aabb::scaled` of the box of a triangle is the box of the
+  scaled triangle — for **every** sign of the scale components, `Aabb::scaled` re-sorts the bounds — is
+  `aabbScaled3_triBox3` / `aabbScaled2_triBox2` (Theorems2) for the closed forms below; at `Float` it is checked bit for
+  bit by the protocol functions `boxscale3` / `boxscale2` and, on every state of every history, by the leaf-box dump;
+* topology, connected components and flags are kept (they do not look at the coordinates);
+* pseudo-normals (3-D): **as written** each cached normal is multiplied component-wise by `scale` and re-normalised
+  (`fN`) — not what a fresh build computes (see `scaledW_not_coherent`); with `fixes/C11-scaled-pseudo-normals.diff` they
+  are recomputed from the scaled vertices. -/
+
+def mapTri (fV : V → V) (c : V × V × V) : V × V × V := (fV c.1, fV c.2.1, fV c.2.2)
+
+/-- `scaled` **as written**: `fN n` is `n.component_mul(scale)` followed by `try_normalize_mut(0.0)` -/
+def scaledW (dim3 : Bool) (fV : V → V) (fN : N → N) (s : Mesh V N) : Mesh V N :=
+  { s with vertices := s.vertices.map fV,
+           pn := if dim3 then s.pn.map (mapPN fN) else s.pn,
+           qbvh := s.qbvh.map (·.map (mapTri fV)) }
+
+/-- `scaled` with `fixes/C11-scaled-pseudo-normals.diff`: cached pseudo-normals are recomputed from the scaled vertices
+(`none` = `compute_pseudo_normals` indexes out of bounds) -/
+def scaled [Geo V N] (dim3 : Bool) (fV : V → V) (s : Mesh V N) : Option (Mesh V N) :=
+  let s1 : Mesh V N := { s with vertices := s.vertices.map fV, qbvh := s.qbvh.map (·.map (mapTri fV)) }
+  if dim3 && s1.pn.isSome then pnStep s1 else some s1
+
+/-- operations of a history, with `scaled` -/
+inductive Op2 (V N : Type) where
+  | base (op : Op V N)
+  /-- `scaled`: `fV` = component-wise product with the scale; `fN` (as-written code only) = product + normalisation -/
+  | scale (fV : V → V) (fN : N → N)
+
+def step2 [Geo V N] (dim3 : Bool) (s : Mesh V N) : Op2 V N → Option (Mesh V N)
+  | .base op => step dim3 s op
+  | .scale fV _ => scaled dim3 fV s
+
+def stepW2 [Geo V N] (dim3 : Bool) (s : Mesh V N) : Op2 V N → Option (Mesh V N)
+  | .base op => stepW dim3 s op
+  | .scale fV fN => some (scaledW dim3 fV fN s)
+
+/-! ### closed forms: `Triangle::local_aabb`, `Aabb::scaled`, `Aabb::merged` (boxes are `(mins, maxs)`) -/
+
+section Boxes
+variable {K : Type} [Num K]
+
+/-- `Triangle::local_aabb`: `a[d].min(b[d]).min(c[d])`, `a[d].max(b[d]).max(c[d])` -/
+def triBox3 (c : V3 K × V3 K × V3 K) : V3 K × V3 K := ((c.1.inf c.2.1).inf c.2.2, (c.1.sup c.2.1).sup c.2.2)
+def triBox2 (c : V2 K × V2 K × V2 K) : V2 K × V2 K := ((c.1.inf c.2.1).inf c.2.2, (c.1.sup c.2.1).sup c.2.2)
+
+/-- `Aabb::scaled`: `a = mins ∘ scale`, `b = maxs ∘ scale`, result `(a.inf(b), a.sup(b))` -/
+def aabbScaled3 (b : V3 K × V3 K) (s : V3 K) : V3 K × V3 K :=
+  let a := b.1.cmul s
+  let c := b.2.cmul s
+  (a.inf c, a.sup c)
+def aabbScaled2 (b : V2 K × V2 K) (s : V2 K) : V2 K × V2 K :=
+  let a := b.1.cmul s
+  let c := b.2.cmul s
+  (a.inf c, a.sup c)
+
+/-- `Aabb::merged` -/
+def aabbMerged3 (a b : V3 K × V3 K) : V3 K × V3 K := (a.1.inf b.1, a.2.sup b.2)
+def aabbMerged2 (a b : V2 K × V2 K) : V2 K × V2 K := (a.1.inf b.1, a.2.sup b.2)
+
+/-- `pt.coords.component_mul_assign(scale)` -/
+def scalePt3 (s p : V3 K) : V3 K := p.cmul s
+def scalePt2 (s p : V2 K) : V2 K := p.cmul s
+
+/-- `n.component_mul_assign(scale); let _ = n.try_normalize_mut(0.0);` -/
+def scaleNormal3 (s n : V3 K) : V3 K :=
+  let m := n.cmul s
+  let l := m.norm
+  if l ≤ 0 then m else m.sdiv l
+
+/-- the box of the whole tree: merge of the leaf boxes (first box, then the others in order) -/
+def mergeBoxes3 (b : V3 K × V3 K) (bs : List (V3 K × V3 K)) : V3 K × V3 K := bs.foldl aabbMerged3 b
+def mergeBoxes2 (b : V2 K × V2 K) (bs : List (V2 K × V2 K)) : V2 K × V2 K := bs.foldl aabbMerged2 b
+end Boxes
+
 end TM
 end Model
